@@ -155,7 +155,7 @@ pub fn run(ctx: &Ctx) -> i32 {
     );
     let gates = ctx.gates_for("C08");
     let off = gates.off_list();
-    let cases = ctx.tier.pick(20_000, 500_000);
+    let cases = ctx.tier.pick(150_000, 2_000_000);
     for valid in [false, true] {
         let out = run_tapes(if valid { "C08v" } else { "C08s" }, ctx.seed, ctx.threads, cases, 1200, |tape, stats, counting| {
             let g = Gates::with_off(off.clone());
